@@ -8,7 +8,7 @@ PROPERTY = 'C11'
 LEVEL = 'fault_enumeration'
 EPS = 0.001
 RULE = ('operation in {connect without auth / with a signature / waiting for the public key to be accepted, shell, exec_out, streaming_shell, root, reboot, list, stat, pull, pull with callback, '
-        'push of 1 WRTE, push of several WRTEs} x EVERY device->host packet index the operation awaits x stall kind {silence, end-of-stream (empty reads forever), trickle (first 1/23/24/size-1 '
+        'push of 1 WRTE, push of several WRTEs} x EVERY device->host packet index the operation awaits x stall kind {silence, end-of-stream (empty reads forever), part of the awaited packet followed by empty reads, the sync service stopping in mid-reply while the stream layer stays alive, trickle (first 1/23/24/size-1 '
         'bytes of the awaited packet one per 0.9 x transport timeout, then silence), endless traffic for another stream, endless unexpected packets on this stream, a WRTE on this stream in place of the awaited packet followed by another one for every OKAY the host sends, the same with zero-length WRTEs} (plus: endless output on this stream for the operations that take a whole-command limit) x timeout grid (incl. a device-level default transport timeout of 30 s with no per-call value) transport '
         '{None, 0, 0.01, 0.5} x read {-1, 0, 0.05, 1} x total {None, 0, 0.02, 2} (auth {0.05, 1} for connect), virtual clock with 1 ms per transport call; oracle: the call raises AdbTimeoutError or '
         'the transport timeout class, never returns a result, never blocks forever, the transport-call watchdog is not exhausted, virtual time from the stall to the raise <= 4 x (read + transport) '
@@ -169,9 +169,43 @@ def run_endless(params, ch):
         s.finish()
 
 
+def run_service_stall(params, ch):
+    """The sync service stops answering in the middle of a reply while the stream layer stays alive (the device still answers the host's
+    CLSE): the call must end with a timeout class within the bound -- never a normal return with partial data, never a hang."""
+    op, twin, T, R = params['op'], params['twin'], params['T'], params['R']
+    cfg = dict(CFG)
+    cfg['sync_stalls'] = {'op': {'list': 'LIST', 'stat': 'STAT', 'pull': 'RECV', 'pull-cb': 'RECV'}[op], 'after': params['after']}
+    if op in ('pull', 'pull-cb'):
+        cfg['records'] = 10
+    s = Session(ch, cfg, twin=twin, eps=EPS, max_calls=60000)
+    try:
+        s.op(('connect',))
+        t0 = s.env.clock.now
+        c0 = s.env.calls
+        r = s.op(OPS[op]({'transport_timeout_s': T, 'read_timeout_s': R}))
+        viol = []
+        et, er = eff(T, R, None)
+        if r[0] == 'ok':
+            viol.append({'msg': '%s returned %r although the device never finished its reply (it stopped after %d records)' % (op, r[1] if len(repr(r[1])) < 120 else repr(r[1])[:120], params['after'])})
+        elif r[0] != 'exc':
+            viol.append({'msg': '%s never finishes when the sync service stops answering after %d records: %r (T=%r R=%r)' % (op, params['after'], r, T, R)})
+        elif r[1] not in TIMEOUTS:
+            viol.append({'msg': '%s raised %s (%s) when the sync service stopped answering after %d records' % (op, r[1], r[2][:80], params['after'])})
+        else:
+            elapsed = s.env.clock.now - t0
+            calls = s.env.calls - c0
+            bound = 6 * (max(0.0, er) + max(0.0, et)) + EPS * calls + 1e-6
+            if elapsed > bound:
+                viol.append({'msg': '%s took %.3f s of virtual time to report that the sync service stopped answering; bound %.3f' % (op, elapsed, bound)})
+        return {'outcome': r[:2], 'viol': viol, 'nontrivial': tuple(sorted((k, str(v)) for k, v in params.items())), 'sample': dict(params, result=r[:2]), 'trans': s.env.calls}
+    finally:
+        s.finish()
+
+
 def stalls(tier='quick'):
     out = [{'kind': 'silence'}, {'kind': 'eof'}, {'kind': 'other'}, {'kind': 'unexpected'}, {'kind': 'wrte'}, {'kind': 'wrte0'}]
     out += [{'kind': 'trickle', 'j': j} for j in ((1, 23, 24, -1) if tier == 'quick' else (1, 2, 12, 23, 24, 25, -2, -1))]
+    out += [{'kind': 'trickle-eof', 'j': j} for j in ((23, 24, 25, -1) if tier == 'quick' else (1, 12, 23, 24, 25, -2, -1))]      # part of the packet, then empty reads
     return out
 
 
@@ -215,6 +249,9 @@ def parts(tier):
                             for auth in (0.05, 1):
                                 sc.append(dict(stl, op=op, twin=twin, k=k, T=T, R=R, auth=auth))
     out.append(Part('connect', sc, run_stall, what='connect(): every awaited reply x stall kind x timeout grid', bound='%d stalls' % len(sc)))
+    sc = [{'op': op, 'twin': t, 'T': T, 'R': R, 'after': a} for op in ('list', 'stat', 'pull', 'pull-cb') for t in twins for T in (None, 0.01, 0.5) for R in (0.05, 1) for a in (0, 1, 2)]
+    out.append(Part('sync-service-stalls', sc, run_service_stall, what='the sync service stops answering after 0..2 records of its reply while the stream layer stays alive (CLSE is still answered)',
+                    bound='%d cases' % len(sc), min_outcomes=1))
     sc = [{'op': op, 'twin': t, 'T': T, 'R': R, 'total': total} for op in ('shell', 'exec_out', 'root') for t in twins for T in Ts for R in Rs for total in totals if total is not None]
     sc += [dict(x, empty=True) for x in sc]        # the same with zero-length writes (a keep-alive that carries no data)
     out.append(Part('endless-output', sc, run_endless, what='a command whose output never ends: the whole-command limit must end it', bound='%d cases' % len(sc), min_outcomes=1))
